@@ -108,7 +108,6 @@ type sqlLexer struct {
 	src     string
 	start   int
 	pos     int
-	nested  int // multiline comment nesting level.
 	stateFn stateFn
 	parts   []Part
 }
@@ -331,23 +330,15 @@ func multilineCommentState(l *sqlLexer) stateFn {
 		l.pos += width
 
 		switch r {
-		case '/':
-			nextRune, width := utf8.DecodeRuneInString(l.src[l.pos:])
-			if nextRune == '*' {
-				l.pos += width
-				l.nested++
-			}
 		case '*':
+			// MySQL dialect: block comments do not nest
 			nextRune, width := utf8.DecodeRuneInString(l.src[l.pos:])
 			if nextRune != '/' {
 				continue
 			}
 
 			l.pos += width
-			if l.nested == 0 {
-				return rawState
-			}
-			l.nested--
+			return rawState
 
 		case utf8.RuneError:
 			if width != replacementcharacterwidth {
